@@ -38,21 +38,21 @@ impl<'a> Atom<'a> {
 }
 
 impl Allocator {
-    uninterp spec fn node(&self, n: NodePtr) -> NodeView;
+    uninterp spec fn node_view(&self, n: NodePtr) -> NodeView;
     uninterp spec fn height(&self, n: NodePtr) -> nat;
 
-    spec fn is_atom(&self, n: NodePtr) -> bool { self.node(n) is Atom }
-    spec fn is_pair(&self, n: NodePtr) -> bool { self.node(n) is Pair }
-    spec fn bytes(&self, n: NodePtr) -> Seq<u8> { self.node(n)->Atom_0 }
-    spec fn left(&self, n: NodePtr) -> NodePtr { self.node(n)->Pair_0 }
-    spec fn right(&self, n: NodePtr) -> NodePtr { self.node(n)->Pair_1 }
+    spec fn is_atom(&self, n: NodePtr) -> bool { self.node_view(n) is Atom }
+    spec fn is_pair(&self, n: NodePtr) -> bool { self.node_view(n) is Pair }
+    spec fn bytes(&self, n: NodePtr) -> Seq<u8> { self.node_view(n)->Atom_0 }
+    spec fn left(&self, n: NodePtr) -> NodePtr { self.node_view(n)->Pair_0 }
+    spec fn right(&self, n: NodePtr) -> NodePtr { self.node_view(n)->Pair_1 }
 
     #[verifier::external_body]
     fn sexp(&self, n: NodePtr) -> (r: SExp)
         ensures
             match r {
-                SExp::Atom => self.node(n) is Atom,
-                SExp::Pair(l, rr) => self.node(n) == NodeView::Pair(l, rr)
+                SExp::Atom => self.node_view(n) is Atom,
+                SExp::Pair(l, rr) => self.node_view(n) == NodeView::Pair(l, rr)
                     && self.height(l) < self.height(n) && self.height(rr) < self.height(n),
             },
     { unimplemented!() }
@@ -60,13 +60,13 @@ impl Allocator {
     /// panics on a pair in the real code: the precondition makes that a proof obligation
     #[verifier::external_body]
     fn atom(&self, n: NodePtr) -> (r: Atom<'_>)
-        requires self.node(n) is Atom,
+        requires self.node_view(n) is Atom,
         ensures r@ == self.bytes(n),
     { unimplemented!() }
 
     #[verifier::external_body]
     fn atom_len(&self, n: NodePtr) -> (r: usize)
-        requires self.node(n) is Atom,
+        requires self.node_view(n) is Atom,
         ensures r == self.bytes(n).len(),
     { unimplemented!() }
 
@@ -74,8 +74,8 @@ impl Allocator {
     fn next(&self, n: NodePtr) -> (r: Option<(NodePtr, NodePtr)>)
         ensures
             match r {
-                None => self.node(n) is Atom,
-                Some((l, rr)) => self.node(n) == NodeView::Pair(l, rr)
+                None => self.node_view(n) is Atom,
+                Some((l, rr)) => self.node_view(n) == NodeView::Pair(l, rr)
                     && self.height(l) < self.height(n) && self.height(rr) < self.height(n),
             },
     { unimplemented!() }
@@ -91,12 +91,34 @@ impl Allocator {
 
     #[verifier::external_body]
     fn nil(&self) -> (r: NodePtr)
-        ensures r == NodePtr::NIL, self.node(r) == NodeView::Atom(Seq::<u8>::empty()),
+        ensures r == NodePtr::NIL, self.node_view(r) == NodeView::Atom(Seq::<u8>::empty()),
     { unimplemented!() }
 }
 
 /// the nil pointer denotes the empty atom in every allocator
 #[verifier::external_body]
 broadcast proof fn axiom_nil_is_empty_atom(a: &Allocator)
-    ensures #[trigger] a.node(NodePtr::NIL) == NodeView::Atom(Seq::<u8>::empty()),
+    ensures #[trigger] a.node_view(NodePtr::NIL) == NodeView::Atom(Seq::<u8>::empty()),
 {}
+
+/// clvmr::allocator::NodeVisitor (result of Allocator::node)
+pub enum NodeVisitor<'a> {
+    Buffer(&'a [u8]),
+    U32(u32),
+    Pair(NodePtr, NodePtr),
+}
+
+impl Allocator {
+    /// Buffer(b): heap atom with bytes b; U32(v): small atom whose bytes are the canonical form of v
+    /// (clvmr SmallAtom nodes hold values < 2^26); Pair: the two children
+    #[verifier::external_body]
+    fn node(&self, n: NodePtr) -> (r: NodeVisitor<'_>)
+        ensures
+            match r {
+                NodeVisitor::Buffer(b) => self.is_atom(n) && b@ == self.bytes(n),
+                NodeVisitor::U32(v) => self.is_atom(n) && self.bytes(n) == canon(v as u64) && v < 0x400_0000,
+                NodeVisitor::Pair(l, rr) => self.node_view(n) == NodeView::Pair(l, rr)
+                    && self.height(l) < self.height(n) && self.height(rr) < self.height(n),
+            },
+    { unimplemented!() }
+}
